@@ -362,8 +362,12 @@ def rule_c(ctx: Context, R: Reporter, wrapper: FuncInfo):
                         cur = [p for p in parts if isinstance(p, ast.Call) and isinstance(p.func, ast.Attribute) and p.func.attr == "get_current" and const_value(call_arg(p, 0, "key")) == "calls"]
                         oth = [p for p in parts if p not in cur]
                         if len(cur) == 1 and len(oth) == 1 and rows is not None and norm_text(oth[0]) == rows:
-                            # the write is on every path from the call to exit
-                            if not c2.reaches(nd.id, c2.exit.id, blocked=[wn.id]):
+                            # the write is on every path from the call to exit, inside every loop that repeats the call, and
+                            # no other evaluation (or a repetition of this one) happens before it
+                            write_ids = [x.id for x in (fl.node_containing(a2.call) for a2 in key_incs) if x is not None]
+                            repeated = not set(nd.loops) <= set(wn.loops)
+                            again = any(nd2.id != nd.id and c2.reaches(nd.id, nd2.id, blocked=write_ids) for (nd2, _c) in sites)
+                            if not c2.reaches(nd.id, c2.exit.id, blocked=[wn.id]) and not repeated and not again:
                                 ok_any = True
                 R.check("C13.c", f"{fi.short}: `calls` grows by the number of evaluated rows on every path through the likelihood call", ok_any, fi, c,
                         msg=f"{fi.short}: after `{unparse(c)[:50]}` ({rows} rows) the key `calls` is not updated as calls + {rows} on every path", key=f"key-amount:{fi.short}")
@@ -688,6 +692,7 @@ def variants():
         Variant("c-count-on-one-branch", "bad", replace_stmt(mc, "BaseMCMCRunner._evaluate_likelihood", "self.n_calls += self.n_walkers", "if self.blobs is None:\n    self.n_calls += self.n_walkers"), ["C13.c"], quick=True),
         Variant("c-count-one", "bad", replace_stmt(mc, "BaseMCMCRunner._evaluate_likelihood", "self.n_calls += self.n_walkers", "self.n_calls += 1"), ["C13.c"]),
         Variant("c-warmup-miscount", "bad", replace_expr(mu, "Mutator.run", "self.state.get_current('calls') + self.n_particles", "self.state.get_current('calls') + 1"), ["C13.c"]),
+        Variant("c-warmup-redraw-uncounted", "bad", insert_after(mu, "Mutator.run", "logl, blobs = self.log_likelihood(x)", "while np.all(np.isinf(logl)):\n    u = np.random.rand(self.n_particles, self.n_dim)\n    x = np.array([self.prior_transform(u[i]) for i in range(self.n_particles)])\n    logl, blobs = self.log_likelihood(x)"), ["C13.c"], quick=True),
         Variant("c-total-added-twice", "bad", insert_after(mu, "Mutator.run", "self.state.set_current('calls', calls)", "self.state.set_current('calls', calls + mcmc_calls)"), ["C13.c"]),
         Variant("c-total-dropped", "bad", replace_stmt(mu, "Mutator.run", "calls = self.state.get_current('calls') + mcmc_calls", "calls = self.state.get_current('calls')"), ["C13.c"]),
         Variant("g-pool-cached-globally", "bad", replace_stmt(core, "SamplerCore._get_distribute_func", "pool = Pool(self.config.pool)", "global _POOL\n_POOL = pool = Pool(self.config.pool)"), ["C13.g"], quick=True),
